@@ -399,6 +399,92 @@ pub fn cmd_merge(arg: &str) -> String {
     r.unwrap_or_else(|| "PANIC".into())
 }
 
+/// report <dir|-> <limit> <op,op|op,...> : the snapshots of `merge`, one receive_client_stats pass, then
+/// Reporter::report() with <dir> as the output location (- = none configured). Prints what was merged (M=), how
+/// many files the directory holds afterwards, the CSV header and the decoded rows rendered like M (R=).
+pub fn cmd_report(arg: &str) -> String {
+    let p: Vec<&str> = arg.trim().splitn(3, ' ').collect();
+    let dir: Option<std::path::PathBuf> = if p[0] == "-" { None } else { Some(std::path::PathBuf::from(p[0])) };
+    let limit: usize = p[1].parse().unwrap();
+    let segs: Vec<Vec<String>> = p
+        .get(2)
+        .unwrap_or(&"")
+        .split('|')
+        .map(|s| s.split(',').filter(|x| !x.is_empty()).map(|x| x.to_string()).collect())
+        .collect();
+    let r = guarded(move || {
+        let q = Arc::new(StatsQueue::new(segs.len().max(1)));
+        for seg in &segs {
+            let mut s = PerClientStats::with_limit(limit);
+            for op in seg {
+                apply_op(&mut s, op);
+            }
+            let snap: Vec<ClientStats> = s.iter().map(|(_, c)| *c).collect();
+            if !snap.is_empty() {
+                q.force_push(snap);
+            }
+        }
+        if let Some(d) = &dir {
+            let _ = std::fs::remove_dir_all(d);
+            std::fs::create_dir_all(d).unwrap();
+        }
+        let mut rep = Reporter::new(q, &Duration::from_secs(600), dir.clone());
+        rep.receive_client_stats();
+        let merged = render_clients(rep.merged_client_stats());
+        rep.report();
+        let after = render_clients(rep.merged_client_stats());
+        let mut files = Vec::new();
+        if let Some(d) = &dir {
+            for e in std::fs::read_dir(d).unwrap() {
+                files.push(e.unwrap().path());
+            }
+        }
+        let mut header = String::from("-");
+        let mut rows: Vec<(u32, String)> = Vec::new();
+        let mut bad = 0;
+        for f in &files {
+            let raw = std::fs::read(f).unwrap();
+            let text = match zstd::stream::decode_all(&raw[..]) {
+                Ok(t) => String::from_utf8_lossy(&t).to_string(),
+                Err(_) => { bad += 1; continue; }
+            };
+            let mut lines = text.lines();
+            if let Some(h) = lines.next() {
+                header = h.to_string();
+            }
+            for l in lines {
+                let c: Vec<&str> = l.split(',').collect();
+                if c.len() != 11 {
+                    bad += 1;
+                    continue;
+                }
+                match c[10].parse::<IpAddr>() {
+                    Ok(a) => {
+                        let n = ip_num(&a);
+                        rows.push((n, format!("{}:{}", n, c[0..9].join("/"))));
+                    }
+                    Err(_) => bad += 1,
+                }
+            }
+        }
+        rows.sort();
+        let r: Vec<String> = rows.into_iter().map(|x| x.1).collect();
+        let names_ok = files.iter().all(|f| {
+            let n = f.file_name().unwrap().to_string_lossy().to_string();
+            n.starts_with("roughenough-stats-") && n.ends_with(".csv.zst")
+        });
+        if let Some(d) = &dir {
+            let _ = std::fs::remove_dir_all(d);
+        }
+        format!(
+            "M={} AFTER={} FILES={} NAMES={} BAD={} HEADER={} R={}",
+            merged, after, files.len(), names_ok, bad, header,
+            if r.is_empty() { "-".to_string() } else { r.join(";") }
+        )
+    });
+    r.unwrap_or_else(|| "PANIC".into())
+}
+
 /// mergebig <snapshots> <records-per-snapshot> : that many snapshots of that many records each (one IETF request
 /// per distinct address; the address space is shared across snapshots in halves so that merging matters), one
 /// receive_client_stats pass; prints how many addresses and how many requests the reporter holds and what is
